@@ -12,6 +12,8 @@ between a real and a complex space).
 -/
 import OdlModel.Model.Adjoint
 import OdlModel.Lemmas.Adjoint
+import OdlModel.Model.AdjointFD
+import OdlModel.Lemmas.AdjointFD
 import Mathlib.Algebra.Field.Rat
 import Mathlib.Tactic.NormNum.Basic
 import Mathlib.Data.Complex.Basic
@@ -1663,6 +1665,87 @@ theorem C05.matrix_axis_array_fails :
     fun _ i => if i = 0 then 1 else 0, rfl, rfl, ?_, ?_⟩
   · intro i; by_cases h : i = 0 <;> simp [h]
   · simp [dot, sumTo, matAxisRun, matAxisAdjM]
+
+end
+
+/-! ### ROUND 4: finite-difference leaves.  `PartialDerivative` on a space of any ndim is the
+C13 model of `finite_diff` (tables GENERATED from odl/discr/diff_ops.py into Gen/FiniteDiff)
+applied along one axis (`Leaf.partialDeriv`, driver token `pderiv`, stream `model/partialderiv`
+in the operator zoo and in the random trees). -/
+
+section
+open OdlModel.FiniteDiff OdlModel.Gen.FiniteDiff
+variable {K : Type} [Field K] [DecidableEq K]
+
+/-- For each of the 30 generated `(method, pad_mode)` leaves the leaf selected by `_ADJ_METHOD`,
+`_ADJ_PADDING` passes the verified corner checker (same statement as C13's
+`adj_tables_transposed`, re-decided here on the same generated tables so that this file does
+not depend on C13's property file). -/
+theorem C05.fd_tables_transposed (m : Method) (p : Pad) :
+    adjOK (tbl m p) (tbl (adjMethod m) (adjPad p)) = true := by
+  cases m <;> cases p <;> decide
+
+omit [DecidableEq K] in
+/-- 1-d core (C13's `fd_adjoint_transpose` in the form C05 needs): `Σ gᵢ (D f)ᵢ = Σ fⱼ (−D' g)ⱼ`
+for every method, pad mode and axis length on which both leaves run. -/
+theorem C05.fd_transpose (m : Method) (p : Pad) (n : Nat)
+    (h : sizeCheck guards (tbl m p) p n = none)
+    (h' : sizeCheck guards (tbl (adjMethod m) (adjPad p)) (adjPad p) n = none)
+    (dx : K) (f g : Nat → K) :
+    ∑ i ∈ range n, g i * fd den (tbl m p) n 0 dx f i
+      = ∑ j ∈ range n, f j * -(fd den (tbl (adjMethod m) (adjPad p)) n 0 dx g j) := by
+  have hn := sizeCheck_none h
+  have hn' := sizeCheck_none h'
+  obtain ⟨k, rfl⟩ : ∃ k, n = k + 2 := ⟨n - 2, by have := (tbl m p).two_le_need; omega⟩
+  have key := pair_adjoint (K := K) _ _ (C05.fd_tables_transposed m p) k f g
+    ((tbl m p).accs_fit hn) ((tbl _ _).accs_fit hn')
+  rw [sum_congr rfl (fun j _ => mul_neg _ _), sum_neg_distrib]
+  simp only [fd, div_eq_mul_inv, ← mul_assoc, ← Finset.sum_mul]
+  rw [eq_neg_iff_add_eq_zero, ← add_mul, key, zero_mul]
+
+/-- PartialDerivative(S, axis, method, pad_mode) (linear case `pad_const = 0`) on a space of
+ANY ndim and shape `(p, n, q)` around `axis`, real or complex, whose inner product has a
+CONSTANT weight `w` (uniformly discretized spaces: the cell volume): the coded adjoint
+`-PartialDerivative(S, axis, _ADJ_METHOD[method], _ADJ_PADDING[pad_mode])` satisfies
+`⟨Ax, y⟩ = ⟨x, A*y⟩` in the space's own weighted, sesquilinear inner product, for every
+method, every pad mode and every axis length the code accepts (`sizeCheck = none`).
+NOT covered: `nodes_on_bdry` discretizations (non-constant weights: open finding F60). -/
+theorem C05.partial_deriv_adj (cj : K →+* K) (I : K) (S : Space K)
+    (p n q : Nat) (me : Method) (pa : Pad) (dx w : K)
+    (hS : S.m = 1) (hSn : S.n 0 = p * (n * q)) (hW : ∀ i, S.W 0 i = w) (hdx : cj dx = dx)
+    (h : sizeCheck guards (tbl me pa) pa n = none)
+    (h' : sizeCheck guards (tbl (adjMethod me) (adjPad pa)) (adjPad pa) n = none) :
+    (Leaf.partialDeriv S n q me pa dx).WT cj I := by
+  have hn : 2 ≤ n := le_trans (tbl me pa).two_le_need (sizeCheck_none h)
+  have hc : ∀ (t : Table) (y : El K) (j o : Nat), cj (axisRun n n q (fd den t n 0 dx) y j o) =
+      axisRun n n q (fd den t n 0 dx) (fun j i => cj (y j i)) j o := by
+    intro t y j o
+    simp only [axisRun, fd_conj cj t n hn, hdx]
+  show Pair cj (false = true) S S _ _
+  refine ⟨?_, ?_, ?_⟩
+  · intro x hx hr j o
+    rw [hc]; congr 1; funext j i; exact hx hr j i
+  · intro y hy hr j o
+    rw [map_neg, hc]; congr 2; funext j i; exact hy hr j i
+  · intro φ _ x y _ _
+    congr 1
+    simp only [dot_eq, hS, sum_range_one, hSn, hW, map_neg, hc]
+    exact axis_dot p n n q _ (fun g k => -(fd den (tbl (adjMethod me) (adjPad pa)) n 0 dx g k))
+      (fun f g => C05.fd_transpose me pa n h h' dx f g) w x (fun j i => cj (y j i))
+
+/-- Non-vacuity and use: `PartialDerivative(uniform_discr([0,0],[1.5,2],(3,4)), axis=0,
+method='central', pad_mode='order2_adjoint')` (p = 1, n = 3, q = 4, cell volume 1/4) satisfies
+its contract, hence the tree `3·∂₀ + ∂₀` is covered by `adj_sound` with no leaf hypothesis. -/
+example :
+    let S : Space ℚ := ⟨1, fun _ => 12, fun _ _ => 1 / 4, true⟩
+    let l : Leaf ℚ := Leaf.partialDeriv S 3 4 .central .order2Adj (1 / 2)
+    let t : Impl ℚ := .sum (.lscal (.leaf l) 3) (.leaf l)
+    t.WT (RingHom.id ℚ) 0 ∧ (t.adj (RingHom.id ℚ) 0).isSome = true := by
+  intro S l t
+  have hl : l.WT (RingHom.id ℚ) 0 :=
+    C05.partial_deriv_adj (RingHom.id ℚ) 0 S 1 3 4 .central .order2Adj (1 / 2) (1 / 4)
+      rfl rfl (fun _ => rfl) rfl (by decide) (by decide)
+  exact ⟨⟨⟨hl, fun _ => rfl, fun _ => rfl⟩, hl, rfl, rfl⟩, rfl⟩
 
 end
 
